@@ -62,10 +62,10 @@ func dropIntoWatchDir(w *svc.World) {
 	time.Sleep(900 * time.Millisecond)
 }
 
-// churnConverterDir adds a second converter executable, touches it (the watcher restarts its
+// churnConverterDir adds a further converter executable, touches it (the watcher restarts its
 // processes) and removes it again, each step behind the watcher's 500 ms debounce.
 func churnConverterDir(w *svc.World) {
-	second := filepath.Join(w.ConvDir, "conv2")
+	second := filepath.Join(w.ConvDir, "conv3")
 	if err := os.Symlink(w.ConverterBin, second); err != nil {
 		mc.Fatal("%v", err)
 	}
